@@ -268,8 +268,12 @@ def urlize(
     if trim_url_limit is not None:
 
         def trim_url(x: str) -> str:
-            if len(x) > trim_url_limit:
-                return f"{x[:trim_url_limit]}..."
+            # x is already escaped. Cut the text it stands for and escape the
+            # kept part again, so that an entity is never cut in two.
+            text = markupsafe.Markup(x).unescape()
+
+            if len(text) > trim_url_limit:
+                return f"{markupsafe.escape(text[:trim_url_limit])}..."
 
             return x
 
